@@ -700,6 +700,28 @@ def check_tuple_terminated(P, ctx):
     ctx.floor(rule, 5)
 
 
+def check_full_scans(P, ctx):
+    """mem and rem of an Array look at every element: the scan loop visits indices 0..nitems-1 in steps of one (decided by
+    evaluating its header for counts 0..4).  A scan that stops one short misses the last element; one that runs one over
+    compares memory behind the last element."""
+    from .rules_c01 import full_range
+    rule = 'C04.full-scan'
+    for fname in (P.slot('Array', 'Get', 'mem'), P.slot('Array', 'Get', 'rem')):
+        fn = P.fn(fname)
+        g = P.cfg(fn)
+        ctx.fn(fn)
+        conds = [n for n in g.live() if n['kind'] == 'cond' and util.mentions_field(n['expr'], 'nitems') and loops.counted_loop(g, None, n) is not None]
+        bad = None
+        if len(conds) != 1:
+            bad = 'expected one scan loop bounded by the count, found %d' % len(conds)
+        else:
+            lp = full_range(g, conds[0], 'nitems')
+            if isinstance(lp, str):
+                bad = lp
+        ctx.check(bad is None, rule, fname, site(fn), 'the element scan visits every index 0..count-1 once', [bad] if bad else None)
+    ctx.floor(rule, 2)
+
+
 def run(ctx, load):
     P = load(UNITS, 'default')
     ctx.stats['units'] = set(UNITS)
@@ -721,6 +743,7 @@ def run(ctx, load):
     ctx.floor('C04.fresh-slot', 5)
     check_list_count(P, ctx)
     check_tuple_terminated(P, ctx)
+    check_full_scans(P, ctx)
     # sort exchanges elements with swap(), whose fallback is memswap: every byte of both operands must be exchanged
     from .rules_c10 import check_memswap
     before = len(ctx.obs)
